@@ -804,3 +804,38 @@ V('C08-mathbb-offset', 'C08', L2T,
 V('C08-benign', 'C08', UE,
   "            # has dangling named macro, apply protection.\n            return '{' + repl + '}'",
   "            # has a dangling named macro, apply protection.\n            return '{' + repl + '}'", 'SILENT')
+
+
+# ----------------------------------------------------------------------- second round additions
+UT = 'pylatexenc/_util.py'
+V('C20-linestart-skips-empty-lines', 'C20', UT,
+  "                k = x.find('\\n', k)\n", "                k = x.find('\\n', k+1)\n", 'R20d',
+  'the search for the next newline starts one past the previous line start: empty lines are skipped')
+V('C20-linestart-no-plus-one', 'C20', UT,
+  "                k += 1\n                # s[k] is the character after the newline",
+  "                # s[k] is the character after the newline", 'R20d')
+V('C20-linestart-other-string', 'C20', UT,
+  "self._pos_new_lines = list(find_all_new_lines(s))",
+  "self._pos_new_lines = list(find_all_new_lines(s.strip()))", 'R20d')
+V('C11-scanner-double-step', 'C11', TRF,
+  "            space += c\n            p2 += 1\n", "            space += c\n            p2 += 2\n", 'R11e')
+V('C11-scanner-appends-blank', 'C11', TRF,
+  "            space += c\n            p2 += 1\n", "            space += ' '\n            p2 += 1\n", 'R11e')
+V('C11-move-past-wrong-postspace', 'C11', TRF,
+  "                new_pos -= len(post_space)\n", "                new_pos -= 1\n", 'R11d')
+V('C01-push-overwrites-start', 'C01', NC,
+  "        if self._pending_chars_pos is None:\n            self._pending_chars_pos = pos\n",
+  "        self._pending_chars_pos = pos\n", 'R01k')
+V('C01-flush-no-reset', 'C01', NC,
+  "        self._pending_chars = ''\n        self._pending_chars_pos = None\n",
+  "        self._pending_chars_pos = None\n", 'R01k')
+V('C01-push-prepends', 'C01', NC,
+  "        self._pending_chars += chars\n", "        self._pending_chars = chars + self._pending_chars\n", 'R01k')
+V('C10-body-state-from-self', 'C10', 'pylatexenc/macrospec/_macrocallparser.py',
+  "get_updated_parsing_state_from_delta(\n            parsing_state,\n            self.make_body_parsing_state_delta(",
+  "get_updated_parsing_state_from_delta(\n            self.parsing_state_for_body,\n            self.make_body_parsing_state_delta(",
+  'R10h')
+V('C06-retry-rewinds', 'C06', EX,
+  "            # recover from error ->\n            raise _TryAgainWithSkippedCommentOrWhitespaceNodes([], tok.pos)\n\n\n        if tok.tok == 'comment':",
+  "            # recover from error ->\n            token_reader.move_to_token(tok)\n            raise _TryAgainWithSkippedCommentOrWhitespaceNodes([], tok.pos)\n\n\n        if tok.tok == 'comment':",
+  'R06f')
